@@ -3,7 +3,12 @@
 // and Xerces-DOM backed in thread-safe mode), built once by the main thread.  Every output is
 // compared with the output the main thread computed sequentially before the threads started.
 //
-//   xvmt <casedir> <threads> <iterations-per-thread> <seed> [yield]
+//   xvmt <casedir> <threads> <iterations-per-thread> <seed> [yield [cold]]
+//
+// cold = 1 + form: nothing is transformed before the threads start.  They leave a spin barrier together and all
+// begin with the first pair in that source form, so that state the PROCESS builds lazily on first use (static tables, caches)
+// is built under contention too; results are kept and compared with the sequential ones computed after
+// the threads have finished.
 //
 // casedir holds sheet<k>.xsl (k = 0..), doc<j>.xml (j = 0..) and pairs.txt with lines "k j".
 // Output (stdout): one "PAIR k j form expected-bytes" line per sequential run, one
@@ -50,7 +55,10 @@ struct Shared {
 static Shared g;
 static std::atomic<long> g_running(0), g_done(0), g_mismatch(0), g_maxOverlap(0);
 static std::atomic<long> g_overlapHist[65];
-static int g_iters = 10, g_yield = 0;
+static int g_iters = 10, g_yield = 0, g_cold = 0, g_nthreads = 0;
+static std::atomic<int> g_arrived(0);
+struct Kept { int pi, form, rc, iter; std::string out, err; };
+static std::vector<std::vector<Kept> > g_kept;
 static unsigned g_seed = 1;
 
 static std::string readFile(const std::string& p) {
@@ -82,11 +90,13 @@ static void* worker(void* a) {
     const int id = static_cast<Arg*>(a)->id;
     unsigned rs = g_seed * 7919u + id * 104729u + 1;
     XalanTransformer t;
+    if (g_cold) { ++g_arrived; while (g_arrived.load() < g_nthreads) {} }
     for (int it = 0; it < g_iters; ++it) {
         rs = rs * 1103515245u + 12345u;
-        const int pi = int((rs >> 16) % g.pairs.size());
+        int pi = int((rs >> 16) % g.pairs.size());
         rs = rs * 1103515245u + 12345u;
         int form = int((rs >> 16) % 3);
+        if (g_cold && it == 0) { pi = 0; form = (g_cold - 1) % 3; }
         if (form == 1 && g.xerces[g.pairs[pi].doc] == 0) form = 0;
         if (g_yield) { rs = rs * 1103515245u + 12345u; if ((rs >> 16) % 4 == 0) sched_yield(); else if ((rs >> 16) % 16 == 1) usleep((rs >> 20) % 200); }
         const long now = ++g_running;
@@ -97,6 +107,11 @@ static void* worker(void* a) {
         const int rc = runOne(t, pi, form, out);
         --g_running;
         ++g_done;
+        if (g_cold) {
+            Kept k; k.pi = pi; k.form = form; k.rc = rc; k.iter = it; k.out.swap(out); if (rc != 0) k.err = t.getLastError();
+            g_kept[id].push_back(k);
+            continue;
+        }
         const std::pair<int, std::string>& e = g.expected[std::make_pair(pi, form)];
         if (rc != e.first || out != e.second) {
             ++g_mismatch;
@@ -121,6 +136,10 @@ int main(int argc, char** argv) {
     g_iters = atoi(argv[3]);
     g_seed = unsigned(atoi(argv[4]));
     g_yield = argc > 5 ? atoi(argv[5]) : 0;
+    g_cold = argc > 6 ? atoi(argv[6]) : 0;
+    g_nthreads = nthreads;
+    g_kept.resize(nthreads);
+    setvbuf(stdout, 0, _IOLBF, 0);      // the PAIR lines locate a death in the sequential phase
     xercesc::XMLPlatformUtils::Initialize();
     XalanTransformer::initialize();
     int status = 0;
@@ -185,7 +204,15 @@ int main(int argc, char** argv) {
         }
         if (g.pairs.empty()) { printf("HARNESS no usable pairs\n"); status = 2; }
         else {
-            // sequential expectations, computed twice to make sure they are deterministic
+            // sequential expectations, computed twice to make sure they are deterministic (in cold mode only after the threads)
+            for (int phase = 0; phase < 2; ++phase) {
+            if (phase == 1) {
+                std::vector<pthread_t> th(nthreads);
+                std::vector<Arg> args(nthreads);
+                for (int i = 0; i < nthreads; ++i) { args[i].id = i; pthread_create(&th[i], 0, worker, &args[i]); }
+                for (int i = 0; i < nthreads; ++i) pthread_join(th[i], 0);
+            }
+            if ((phase == 0) == (g_cold != 0)) continue;
             for (size_t pi = 0; pi < g.pairs.size(); ++pi) {
                 for (int form = 0; form < 3; ++form) {
                     if (form == 1 && g.xerces[g.pairs[pi].doc] == 0) continue;
@@ -199,10 +226,18 @@ int main(int argc, char** argv) {
                 }
             }
             fflush(stdout);
-            std::vector<pthread_t> th(nthreads);
-            std::vector<Arg> args(nthreads);
-            for (int i = 0; i < nthreads; ++i) { args[i].id = i; pthread_create(&th[i], 0, worker, &args[i]); }
-            for (int i = 0; i < nthreads; ++i) pthread_join(th[i], 0);
+            }
+            for (int id = 0; id < nthreads; ++id) {
+                for (size_t q = 0; q < g_kept[id].size(); ++q) {
+                    const Kept& k = g_kept[id][q];
+                    const std::pair<int, std::string>& e = g.expected[std::make_pair(k.pi, k.form)];
+                    if (k.rc != e.first || k.out != e.second) {
+                        ++g_mismatch;
+                        printf("MISMATCH thread=%d iter=%d sheet=%d doc=%d form=%d rc=%d expected_rc=%d len=%lu expected_len=%lu err=%s\n", id, k.iter, g.pairs[k.pi].sheet, g.pairs[k.pi].doc, k.form, k.rc, e.first,
+                               (unsigned long)k.out.size(), (unsigned long)e.second.size(), k.err.c_str());
+                    }
+                }
+            }
             printf("OVERLAP");
             for (int i = 1; i < 65; ++i) if (g_overlapHist[i].load()) printf(" %d:%ld", i, g_overlapHist[i].load());
             printf("\n");
